@@ -40,7 +40,20 @@ func opRestore(mi uint64, data []uint64, sizeOk bool, fs []bool) []uint64 {
 	return append(out, fails(fs)...)
 }
 func opVerify() []uint64 { return []uint64{6} }
-func opGate() []uint64   { return []uint64{7} }
+
+// a vote on the last verify future; the third int asks for the resolved flag (needs the Resolved hook)
+func opVote(leader bool) []uint64 { return []uint64{8, b2u(leader), b2u(haveVerifResolved())} }
+
+// a verifyLeader call followed by the verdicts of 0-5 exchanges (confirmations, sometimes a denial; more than the
+// quorum needs and after a denial as well: a future handed to the leader loop takes no further votes)
+func opsVerifyVotes(r *rng) [][]uint64 {
+	out := [][]uint64{opVerify()}
+	for k := r.intn(6); k > 0; k-- {
+		out = append(out, opVote(!r.chance(1, 5)))
+	}
+	return out
+}
+func opGate() []uint64 { return []uint64{7} }
 
 // every configuration reachable by one change from the tables must be in the table: build a closed table
 func closedCfgTab() [][]srv {
@@ -116,6 +129,9 @@ func lsMonitor(cw *caseWriter, tag string, in, obs []uint64) {
 		case 6, 7:
 			p++
 			ops = append(ops, op{ev[p-1]})
+		case 8:
+			p += 3
+			ops = append(ops, op{8})
 		default:
 			p = len(ev)
 		}
@@ -253,19 +269,37 @@ func c08gen(cw *caseWriter, tier string, r *rng) {
 		g.cfgtab = tabs
 		g.term = 3
 		g.entries = [][4]uint64{{1, 1, 5, 9000}}
+		voters := []uint64{1, 2, 3}
+		if r.chance(1, 10) {
+			// a single-voter cluster: verifyLeader answers at once, commits need nobody else
+			g.entries = [][4]uint64{{1, 1, 5, 9008}}
+			voters = []uint64{1}
+		}
 		nold := r.intn(4)
 		for i := 0; i < nold; i++ {
 			g.entries = append(g.entries, [4]uint64{uint64(2 + i), 2, 0, uint64(200 + i)})
 		}
+		if r.chance(1, 8) {
+			// commit-tracking store + RestoreCommittedLogs: the server starts with the durable commit index (at or above its
+			// only configuration entry, which NewRaft does not promote to "committed") and stages the commit index with every StoreLogs
+			g.track, g.rc = 1, 1
+			g.pcommit = uint64(r.intn(nold + 2))
+		}
+		snapIdx := uint64(0)
+		if r.chance(1, 8) {
+			// the newest snapshot is ahead of the log store (installed / restored, nothing appended since):
+			// dispatchLogs numbers from getLastIndex, not from the last log entry
+			snapIdx = uint64(6 + r.intn(6))
+			g.snaps = []nsSnap{{idx: snapIdx, term: 3, cfg: tabs[g.entries[0][3]-9000], cfgidx: 1, data: []uint64{5, 6}, ok: true}}
+		}
 		fid := uint64(0)
 		pay := uint64(500)
-		voters := []uint64{1, 2, 3}
 		nops := 4 + r.intn(14)
 		failed := false
 		// the leader's own no-op first, as runLeader does
 		fid++
 		g.ops = append(g.ops, opDispatch([][3]uint64{{1, 0, fid}}, nil))
-		last := uint64(1+nold) + 1
+		last := max64(uint64(1+nold), snapIdx) + 1
 		for i := 0; i < nops; i++ {
 			switch x := r.intn(100); {
 			case x < 30:
@@ -308,7 +342,7 @@ func c08gen(cw *caseWriter, tier string, r *rng) {
 			case x < 90:
 				g.ops = append(g.ops, opGate())
 			case x < 93:
-				g.ops = append(g.ops, opVerify())
+				g.ops = append(g.ops, opsVerifyVotes(r)...)
 			case x < 97:
 				fid++
 				cmds := [][3]uint64{{0, 4, 4}, {1, 4, 4}, {2, 2, 0}, {3, 2, 0}}
@@ -320,7 +354,8 @@ func c08gen(cw *caseWriter, tier string, r *rng) {
 			}
 		}
 		if !failed {
-			g.ops = append(g.ops, opMatch(2, last), opMatch(3, last), opCommit(), opGate(), opVerify())
+			g.ops = append(g.ops, opMatch(2, last), opMatch(3, last), opCommit(), opGate())
+			g.ops = append(g.ops, opsVerifyVotes(r)...)
 		}
 		lsRun(cw, cw.tag("L"), g.encode(), r.chance(1, 2))
 	}
